@@ -324,13 +324,17 @@ func gcEmitLowering(goSrc string, funcs []*gfunc) {
 	if err != "" {
 		return
 	}
+	stream := "sem.lower"
+	if gTiny {
+		stream = "sem.lowerT"
+	}
 	for _, f := range funcs {
 		fd := fns[f.name]
 		if fd == nil {
-			vEmitIO(vsx("sem.lower", f.sx()), "(missing-function)")
+			vEmitIO(vsx(stream, f.sx()), "(missing-function)")
 			continue
 		}
-		vEmitIO(vsx("sem.lower", f.sx()), r.fun(fd))
+		vEmitIO(vsx(stream, f.sx()), r.fun(fd))
 		vstat("lowering-readback")
 	}
 }
